@@ -56,6 +56,41 @@ impl Engine for TokenEngine {
         let mut t: u128 = rng.below(1000) as u128 * S;
         let mut ops = vec![format!("new @{t}")];
         let mut issued: Vec<(usize, u128)> = vec![]; // (ip index, time)
+        if _idx % 3 == 2 {
+            // replay style (round-3 seed C06 "memo of the last accepted pair"): one token is accepted
+            // once, then the node sees steady traffic that accepts nothing else (checkouts, junk, tokens
+            // from wrong addresses), every gap short enough for single-step rotations, and the same
+            // token is presented again and again until well after its 30 minutes
+            let rounds = if thorough { 12 } else { 3 };
+            for _ in 0..rounds {
+                t += gap(rng);
+                let vip = rng.below(ips.len() as u64) as usize;
+                ops.push(format!("checkout {} @{t}", hex(&ips[vip])));
+                let victim = issued.len();
+                issued.push((vip, t));
+                let t_issue = t;
+                t += rng.below(500) as u128 * S + rng.below(S as u64) as u128;
+                ops.push(format!("checkin {} #{victim} @{t}", hex(&ips[vip])));
+                let until = t_issue + rng.range(1800, 4200) as u128 * S;
+                let represent_early = rng.chance(1, 2);
+                while t < until {
+                    t += match rng.below(6) { 0 => 599 * S, 1 => 600 * S, 2 => rng.below(1100) as u128 * S, _ => rng.below(540) as u128 * S } + rng.below(S as u64) as u128;
+                    let other = (vip + 1 + rng.below(ips.len() as u64 - 1) as usize) % ips.len();
+                    match rng.below(6) {
+                        0 => ops.push(format!("checkin {} raw:{} @{t}", hex(&ips[other]), hex(&rng.bytes(20)))),
+                        1 => ops.push(format!("checkin {} #{victim} @{t}", hex(&ips[other]))),
+                        2 if represent_early || t >= t_issue + 1800 * S => ops.push(format!("checkin {} #{victim} @{t}", hex(&ips[vip]))),
+                        _ => { ops.push(format!("checkout {} @{t}", hex(&ips[other]))); issued.push((other, t)); }
+                    }
+                }
+                for d in [0u128, 1, 600 * S, 1300 * S] {
+                    let at = (t_issue + 1800 * S + d).max(t);
+                    t = at;
+                    ops.push(format!("checkin {} #{victim} @{t}", hex(&ips[vip])));
+                }
+            }
+            return ops;
+        }
         for _ in 0..n {
             t += gap(rng);
             let ipi = rng.below(ips.len() as u64) as usize;
